@@ -21,15 +21,19 @@ class C09(BaseCheck):
           'successful connect fails fast in zero virtual time; (b) gaps between the end of one reconnect '
           'attempt and the start of the next are >= initial_wait, grow until they reach max_wait and never '
           'exceed it; (c) bounded recovery: a request arrives at the endpoint within max_wait + attempt '
-          'duration + delta after it became reachable; (d) no connect attempt after DispatcherClose(). '
+          'duration + delta after it became reachable; (d) no connect attempt after DispatcherClose() and no '
+          'connection left open on the client side afterwards. '
           'Every 4th case instead has 2-3 endpoints that all become unreachable at once and one of them '
-          'returns ((c) and (d) only). non-trivial = at least one outage with >= 2 reconnect attempts; distinct by (stack, params, '
+          'returns ((c) and (d) only); every 8th has 3-4 endpoints behind the heap balancer of which two go '
+          'down one after the other and come back in either order while the rest stay healthy ((c) with a '
+          '30 s traffic allowance for the balancer\'s random choice, (d)). non-trivial = at least one outage with >= 2 reconnect attempts; distinct by (stack, params, '
           'outage classes, #retries bucket, recovery phase bucket)')
   ANCHORS = ('scales.resurrector:ResurrectorSink._OnSinkFaulted', 'scales.resurrector:ResurrectorSink._TryResurrect',
              'scales.resurrector:ResurrectorSink.AsyncProcessRequest', 'scales.resurrector:ResurrectorSink.Close')
   REQUIRED_ANCHORS = ANCHORS
   REQUIRED_CLASSES = ('thrift', 'mux', 'multi-endpoint', 'outage:refuse', 'outage:blackhole', 'down-at-first-connect', 'recovered',
-                      'fail-fast-seen', 'backoff-capped', 'closed-while-down')
+                      'fail-fast-seen', 'backoff-capped', 'closed-while-down', 'staggered-outages',
+                      'recover:first-down-first', 'recover:last-down-first')
   ASSUMPTIONS = ('initial_wait_interval > 1 (the implementation\'s x**exponent back-off only grows above 1)',
                  'black-holed connects give up after 3 s in these scenarios (SYN timeout shortened so that '
                  'attempt durations stay small against the retry intervals)')
@@ -91,15 +95,88 @@ class C09(BaseCheck):
     late = [a for s_ in w.servers for a in s_.sim.connect_attempts if a[0] > t_close + EPS]
     if late:
       out.violate('close:reconnect-after-close', '%d connect attempt(s) after DispatcherClose()' % len(late), facts)
+    left_open = [c.id for s_ in w.servers for c in s_.sim.conns if not c.client_closed]
+    if left_open:
+      out.violate('close:connection-left-open', '%d connection(s) still open on the client side %.0fs after '
+                  'DispatcherClose()' % (len(left_open), env.now - t_close), facts, {'conns': left_open[:5]})
     out.classes = sorted(classes)
     out.nontrivial = True
     out.extra = {'calls': len(w.calls), 'multi_cases': 1}
     out.sig = ('multi', kind, balancer, n, (init, mx, ex), mode)
     return out
 
+  def _staggered(self, env, rng, idx, tier):
+    """Heap balancer over 3-4 endpoints (all in use): A goes down, then B while A is still
+    down, they come back in a seeded order, the others stay healthy throughout.  Each must be
+    sent traffic again within one maximum retry interval (+ attempt + a traffic allowance for
+    the balancer's random choice among equally loaded members) of becoming reachable."""
+    from vlib import servers
+    from vlib.stackworld import StackWorld
+    out = CaseResult()
+    kind = ('thrift', 'mux')[(idx // 8) % 2]
+    init, mx, ex = rng.choice([(2, 20, 1.5), (1.5, 10, 1.2), (3, 6, 1.2)])
+    delta = 0.25
+    n = rng.choice([3, 4])
+    w = StackWorld(env, rng, kind=kind, n_eps=n, balancer='heap', timeout=1.0, policy=servers.DefaultPolicy(0.002),
+                   resurrector={'initial_wait_interval': init, 'max_wait_interval': mx, 'backoff_exponent': ex},
+                   connect_latency=0.001)
+    facts = {'stack': kind, 'params': [init, mx, ex], 'endpoints': n, 'balancer': 'heap', 'staggered': True}
+    classes = {kind, 'multi-endpoint', 'staggered-outages'}
+    for s_ in w.servers:
+      s_.sim.syn_timeout = 3.0
+
+    def tick(seconds):
+      for _ in range(int(seconds / delta)):
+        w.call('echo', None, timeout=1.0)
+        env.advance(delta)
+
+    def down(s_):
+      s_.sim.mode = rng.choice(['refuse', 'blackhole'])
+      for c in s_.sim.conns:
+        if not c.client_closed:
+          c.close_by_server('rst')
+    tick(3)
+    a, b = rng.sample(w.servers, 2)
+    down(a)
+    tick(rng.choice([4, 8, 15]))       # traffic discovers the fault, the balancer marks A down
+    down(b)
+    tick(rng.choice([4, 8, 15]))
+    order = [a, b] if rng.random() < 0.6 else [b, a]
+    classes.add('recover:first-down-first' if order[0] is a else 'recover:last-down-first')
+    allowance = 30.0
+    for s_ in order:
+      s_.sim.mode = 'up'
+      r = env.now
+      tick(mx + 3.2 + allowance + rng.choice([0, 5]))
+      arrived = [q['vt'] for q in s_.requests if q['vt'] >= r]
+      out.obligations += 1
+      if not arrived or min(arrived) > r + mx + 3.2 + allowance:
+        out.violate('recovery:too-late', '%s (%s of two staggered outages) became reachable again and received no '
+                    'request within max wait %.0fs + attempt + %.0fs of steady traffic (first arrival: %s); the other '
+                    'endpoints stayed healthy' % (s_.ep, 'first' if s_ is a else 'second', mx, allowance,
+                                                  ('%.1fs' % (min(arrived) - r)) if arrived else 'never'),
+                    dict(facts, which='first-down' if s_ is a else 'second-down',
+                         order='first-down-first' if order[0] is a else 'last-down-first'),
+                    {'attempts': [(round(x[0] - r, 2), x[1]) for x in s_.sim.connect_attempts][-6:]})
+      else:
+        classes.add('recovered')
+    w.close()
+    t_close = env.now
+    env.advance(3 * mx + 10)
+    late = [x for s_ in w.servers for x in s_.sim.connect_attempts if x[0] > t_close + EPS]
+    if late:
+      out.violate('close:reconnect-after-close', '%d connect attempt(s) after DispatcherClose()' % len(late), facts)
+    out.classes = sorted(classes)
+    out.nontrivial = True
+    out.extra = {'calls': len(w.calls), 'staggered_cases': 1}
+    out.sig = ('staggered', kind, n, (init, mx, ex), order[0] is a)
+    return out
+
   def run_case(self, env, rng, idx, tier):
     if idx % 4 == 3:
       return self._multi(env, rng, idx, tier)
+    if idx % 8 == 5:
+      return self._staggered(env, rng, idx, tier)
     from scales.dispatch import ScalesError
     from scales.message import FailedFastError, TimeoutError as ScalesTimeout
     from vlib import servers
@@ -247,6 +324,11 @@ class C09(BaseCheck):
     if late:
       out.violate('close:reconnect-after-close', '%d connect attempt(s) after DispatcherClose(), first %.2fs later' % (
         len(late), late[0][0] - t_close), facts, None)
+    out.obligations += 1
+    left_open = [c.id for s_ in w.servers for c in s_.sim.conns if not c.client_closed]
+    if left_open:
+      out.violate('close:connection-left-open', '%d connection(s) still open on the client side %.0fs after '
+                  'DispatcherClose()' % (len(left_open), env.now - t_close), facts, {'conns': left_open[:5]})
     for s_ in w.servers:
       for bf in s_.bad_frames:
         out.violate('bad-frame', repr(bf), facts)
